@@ -205,10 +205,15 @@ Proof.
     apply build_prio_in in Hp. unfold elig_for. cbn. tauto. }
 Qed.
 
-Lemma cpu_ptasks_eligible c pods : ptasks_eligible c pods (cpu_ptasks c pods).
+Lemma cpu_ptasks_eligible c b pods : ptasks_eligible c pods (cpu_ptasks c b pods).
 Proof.
   unfold ptasks_eligible, cpu_ptasks. intros pt i Hpt Hi.
   destruct (c_cap c <=? 0); [destruct Hpt|].
+  apply in_app_or in Hpt. destruct Hpt as [Hpt|Hpt].
+  { destruct (feat c 0 && be_cfg_ok b && negb (is_nil (be_need c b))); [|destruct Hpt].
+    destruct Hpt as [<-|[]]. cbn [pt_infos pt_feature] in *.
+    apply in_map_iff in Hi. destruct Hi as [p [<- Hp]]. cbn [i_pod].
+    apply build_be_cpu_in in Hp. unfold elig_for. cbn. tauto. }
   apply in_app_or in Hpt. destruct Hpt as [Hpt|Hpt].
   { destruct (feat c 1 && alloc_cfg_ok c && negb (is_nil (alloc_need 1000 c pods))); [|destruct Hpt].
     destruct Hpt as [<-|[]]. cbn [pt_infos pt_feature] in *.
